@@ -1767,8 +1767,11 @@ class Symex:
             raise Raised("StopIteration", None, node)
         if name == "Counter" and len(args) <= 1 and not any(_has_sym(a) for a in args):
             c = _Counter()
-            for x in (self.iterate(args[0], node) if args else []):
-                c[x] = c.get(x, 0) + 1
+            if args and isinstance(args[0], dict):
+                c.update(args[0])
+            else:
+                for x in (self.iterate(args[0], node) if args else []):
+                    c[x] = c.get(x, 0) + 1
             return c
         if name == "dict.fromkeys" and 1 <= len(args) <= 2 and not kw and not isinstance(args[0], (T, Obj)):
             try:
@@ -1894,6 +1897,13 @@ class Symex:
                     # symbolic key against a concrete table: undecidable here -> symbolic lookup
                     return T("mcall", _freeze(o), "get", tuple(_freeze(x) for x in a), ())
                 return a[1] if len(a) > 1 else kw.get("default")
+            if isinstance(o, _Counter) and attr in ("update", "subtract", "most_common", "elements", "total", "copy"):
+                aa = [self.iterate(x, node) if isinstance(x, (T, Obj)) or not isinstance(x, (dict, list, tuple, set, frozenset, str))
+                      and attr in ("update", "subtract") else x for x in a]
+                try:
+                    return getattr(o, attr)(*aa, **kw)
+                except TypeError:
+                    self.unsupported(node, f"Counter.{attr} on unhashable values")
             if attr in ("update", "pop", "copy", "setdefault", "clear", "popitem", "fromkeys"):
                 try:
                     if attr == "update" and a and isinstance(a[0], list):
@@ -2076,10 +2086,57 @@ class _DefaultDict(dict):
 
 
 class _Counter(dict):
-    """collections.Counter: a missing key reads as 0 and is not stored."""
+    """collections.Counter: a missing key reads as 0 and is not stored; update/subtract count elements."""
 
     def __missing__(self, k):
         return 0
+
+    def update(self, other=(), **kw):
+        if isinstance(other, dict):
+            for k, v in other.items():
+                self[k] = self.get(k, 0) + v
+        else:
+            for k in other:
+                self[k] = self.get(k, 0) + 1
+        for k, v in kw.items():
+            self[k] = self.get(k, 0) + v
+
+    def subtract(self, other=(), **kw):
+        if isinstance(other, dict):
+            for k, v in other.items():
+                self[k] = self.get(k, 0) - v
+        else:
+            for k in other:
+                self[k] = self.get(k, 0) - 1
+
+    def most_common(self, n=None):
+        items = sorted(self.items(), key=lambda kv: -kv[1])
+        return items if n is None else items[:n]
+
+    def elements(self):
+        return [k for k, v in self.items() for _ in range(v)]
+
+    def total(self):
+        return sum(self.values())
+
+    def copy(self):
+        c = _Counter()
+        dict.update(c, self)
+        return c
+
+    def __add__(self, o):
+        c = self.copy()
+        for k, v in o.items():
+            c[k] = c.get(k, 0) + v
+        return _Counter({k: v for k, v in c.items() if v > 0}) if True else c
+
+    def __sub__(self, o):
+        c = _Counter()
+        for k, v in self.items():
+            d = v - o.get(k, 0)
+            if d > 0:
+                dict.__setitem__(c, k, d)
+        return c
 
 
 def _eq(a, b):
